@@ -1,6 +1,7 @@
 import Driver.Codec
 import PyGqlModel.Exec
 import PyGqlModel.World
+import PyGqlModel.DefaultResolver
 import PyGqlModel.Spec.ExecSpec
 import PyGqlModel.Spec.ValidDoc
 open PyGql PyGql.Exec
@@ -39,6 +40,18 @@ def docOfJson (j : J) : Doc :=
     frags := (j.arrD "frags").map fun f =>
       { name := f.strD "name", on := f.strD "on", sels := (f.arrD "sels").map selOfJson } }
 
+partial def pvalOfJson (j : J) : PVal :=
+  let kv (x : J) : String × PVal := match x with
+    | .arr [.str k, v] => (k, pvalOfJson v)
+    | _ => ("", .none)
+  match j.strD "t" with
+  | "leaf" => .leaf (j.getD "v")
+  | "list" => .list ((j.arrD "items").map pvalOfJson)
+  | "dict" => .dict ((j.arrD "kv").map kv)
+  | "obj" => .obj ((j.arrD "attrs").map kv) ((j.arrD "calls").map kv)
+      ((j.arrD "raises").map fun x => match x with | .arr [.str k, .str m] => (k, m) | _ => ("", ""))
+  | _ => .none
+
 def varsOfJson (j : J) : Vars := match j with | .obj kvs => kvs | _ => []
 
 partial def dataToJson : Data → J
@@ -72,7 +85,9 @@ def handle? (j : J) : Option J :=
     let s := Driver.schemaOfJson (j.getD "schema")
     let doc := docOfJson (j.getD "doc")
     let vars := varsOfJson (j.getD "vars")
-    let w := fnvWorld s (j.natD "seed") (j.natD "mode")
+    let w := match j.get? "root" with
+      | some r => dataWorld (pvalOfJson r)             -- default resolvers over plain data
+      | none => fnvWorld s (j.natD "seed") (j.natD "mode")
     let opname := (j.get? "opname").bind J.asStr?
     let fuel := doc.size + 2
     let m := execute s doc vars w opname fuel fuel
